@@ -227,11 +227,12 @@ func Exp10(d Decimal) Decimal {
 		}
 	}
 
-	if res.exp > maxUnbiasedExponent+58 {
-		if d.Signbit() {
+	if d.Signbit() {
+		// The reciprocal is representable down to 10**minUnbiasedExponent.
+		if res.exp > -minUnbiasedExponent+58 {
 			return zero(false)
 		}
-
+	} else if res.exp > maxUnbiasedExponent+58 {
 		return inf(false)
 	}
 
